@@ -1,6 +1,7 @@
 """C13 - HpoSet filters, replacements and aggregates (clauses: SIBLING pairs, FIELD+SELECT filters, KIND aggregates)"""
 import re
 from engines import bool_polarity, kernel, kind_elements, adaptor_chain, TRUNCATING_ADAPTORS
+from engines import check_complete_iteration
 from prov import Prov, params_of, field_names
 
 CLAIM = ("(SIBLING) each in-place operation and its copying sibling (remove_modifier/without_modifier, remove_obsolete/without_obsolete, "
@@ -130,6 +131,8 @@ def run(ck, prog, ctx):
                 key_is_upvar = any(a[0] == "param" and a[2] == 1 for a in key_at) or any(a[0] == "upvar" for a in key_at) or not params_of(key_at, fb.id) - {1}
                 recv_from_item = 2 in params_of(recv_at, fb.id)
                 ck.ob("FIELD", "child_nodes/roles", bool(key_is_upvar and recv_from_item and 2 not in params_of(key_at, fb.id)), "the closure set belongs to the OTHER member (inner item) and the searched id is the candidate", where=fb.where(t.line))
+
+    check_complete_iteration(ck, "SELECT", prog, [S + n for pr in PAIRS for n in pr] + [S + "gene_ids", S + "omim_disease_ids", S + "orpha_disease_ids", S + "categories", S + "information_content"], "the members of the set")
 
     # ---------------------------------------------------------------- category counts
     cg = prog.body(S + "categories")
